@@ -8,6 +8,7 @@ import (
 	"strings"
 
 	"go.lstv.dev/util/sem"
+	"verif/firstuse"
 	"verif/libdefaults"
 	"verif/mc"
 	"verif/oracle"
@@ -290,6 +291,7 @@ func probeValid(a verArg) (string, string) {
 func main() {
 	mc.Main("C03", "all strings over {0,1,9,a,Z,-,.,+,v} up to the stated length, core/suffix/number grids, 1-deviation mutants, through 6 entry points x {string,[]byte}; Valid<=>round-trip over all (pre-release, build) pairs of short symbol strings; "+
 		"non-trivial = the reference recogniser accepts the text for at least one entry point", func(r *mc.Run) {
+		firstuse.Phase(r, map[string][]string{"sem": {"parse", "format", "valid"}})
 		r.Reset = reset
 		reset()
 		p := mc.NewProbe(r, "parse", nil, probe)
